@@ -464,6 +464,7 @@ static void on_tick(int sig)
     _exit(3);
 }
 void __real_exit(int code) __attribute__((noreturn, weak));
+void (*mc_exit_hook)(void);
 void __wrap_exit(int code);
 void __wrap_exit(int code)
 {
@@ -473,7 +474,10 @@ void __wrap_exit(int code)
         mc_protected = 0;
         siglongjmp(mc_jmp, 99);
     }
-    if (g_is_worker || g_allow_exit) { fflush(NULL); _exit(code); }
+    if (g_is_worker || g_allow_exit) {
+        if (mc_exit_hook) { void (*h)(void) = mc_exit_hook; mc_exit_hook = NULL; h(); }         /* stands in for an exit handler of the program under test (run once) */
+        fflush(NULL); _exit(code);
+    }
     if (__real_exit) __real_exit(code);
     _exit(code);
 }
